@@ -1,23 +1,34 @@
 (* C15Theorems.v — the property theorems of C15 and nothing else. *)
 From V.lib Require Import Base.
 From V.c13 Require Import C13Spec C13Model.
-From V.c15 Require Import C15Model C15Spec C15BitProofs C15AvcSpsProofs C15Examples.
+From V.c15 Require Import C15Model C15Spec C15BitProofs C15AvcSpsProofs C15AvcVuiProofs C15Examples.
 
-(* AVC SPS without VUI: for every field assignment accepted by sps_valid (all profiles with and
-   without the chroma/bit-depth/scaling-list block, poc types 0-2, frame/field, cropping for all
-   chroma formats) the parser applied to the NAL unit produced by the independent serialiser
-   returns the coded values, Width/Height by the cropping formula and the byte counters.
-   Full statement (with VUI/HRD): C15_avc_sps below once the VUI lemma is in. *)
-Theorem C15_avc_sps_novui_partial : forall v beyond,
-  sps_valid v = true -> sps_offsets_zero v = true -> vui_parameters_present_flag v = false ->
+(* AVC SPS: for every field assignment accepted by sps_valid (profiles with and without the
+   chroma / bit-depth / scaling-list block, scaling lists, poc types 0-2, frame/field, cropping for
+   all chroma formats, VUI incl. both HRDs, parseVUIBeyondAspectRatio true and false) the parser
+   applied to the NAL unit produced by the independent serialiser returns the coded values,
+   Width/Height by the cropping formula, NrBytesBeforeVUI / NrBytesRead = bytes of the escaped
+   NAL unit holding the bits read.  Guard sps_offsets_zero: see C15_avc_sps_offsets_refuted. *)
+Theorem C15_avc_sps : forall v beyond,
+  sps_valid v = true -> sps_offsets_zero v = true ->
   parse_sps_br beyond (nalu_sps v) = Ok (expected_sps beyond v).
-Proof. exact avc_sps_novui. Qed.
-Print Assumptions C15_avc_sps_novui_partial.
-Example C15_avc_sps_novui_hyps :
-  sps_valid ex_sps_novui = true /\ sps_offsets_zero ex_sps_novui = true
-  /\ vui_parameters_present_flag ex_sps_novui = false
-  /\ sps_width (expected_sps true ex_sps_novui) = 1914 /\ sps_height (expected_sps true ex_sps_novui) = 1080.
+Proof. exact avc_sps. Qed.
+Print Assumptions C15_avc_sps.
+Example C15_avc_sps_hyps :
+  sps_valid ex_sps = true /\ sps_offsets_zero ex_sps = true
+  /\ sps_width (expected_sps true ex_sps) = 1914 /\ sps_height (expected_sps true ex_sps) = 1080
+  /\ sps_nr_bytes_before_vui (expected_sps true ex_sps) = 22 /\ sps_nr_bytes_read (expected_sps true ex_sps) = 73.
 Proof. vm_compute. repeat split. Qed.
+
+(* without the guard: what the parser returns on EVERY valid SPS — the three se(v) elements come
+   back as their codeNum *)
+Theorem C15_avc_sps_all_valid : forall v beyond,
+  sps_valid v = true ->
+  parse_sps_br beyond (nalu_sps v) =
+  Ok (expected_sps_gen se_code (nbytes_at (raw_sps v) (sps_bits_before_vui v))
+                       (nbytes_at (raw_sps v) (sps_bits_read beyond v)) beyond v).
+Proof. exact avc_sps_go. Qed.
+Print Assumptions C15_avc_sps_all_valid.
 
 (* the se(v) elements offset_for_non_ref_pic / offset_for_top_to_bottom_field /
    offset_for_ref_frame are read with ReadExpGolomb into uint fields *)
